@@ -104,14 +104,25 @@ fn ss_tcp<const N: usize>(spec: &Value, cfg: &Value, src: &mut BytesMut) -> Resu
         let mut salt = BytesMut::from(&[1u8; N][..]);
         codec.decode(&context, &mut session, &mut salt).map_err(|e| e.to_string())?;
         if var_u64(spec, "sdisc") == Some(1) {
-            let plen = var_u64(spec, "plen").unwrap_or(16);
-            if !(16..=0xffff + 16).contains(&plen) {
-                return Err("unreachable decoder state".to_owned());
+            // Payload(plen): the state is private, so the length chunk that leads to it is tried for each plausible
+            // relation between the announced size and the stored length (size + tag, size, size - tag)
+            let plen = var_u64(spec, "plen").unwrap_or(16) as i64;
+            for size in [plen - 16, plen, plen + 16] {
+                if !(0..=0xffff).contains(&size) {
+                    continue;
+                }
+                let mut c2 = sstcp::AEADCipherCodec::<N>::default();
+                let mut s2 = sstcp::Session::<N>::new(if cfg["mode"].as_str() == Some("Client") { Mode::Client } else { Mode::Server }, sstcp::Identity::default(), None);
+                let mut salt = BytesMut::from(&[1u8; N][..]);
+                c2.decode(&context, &mut s2, &mut salt).map_err(|e| e.to_string())?;
+                verif::script_opens(Some(vec![Some((size as u16).to_be_bytes().to_vec())]));
+                let mut lenchunk = BytesMut::from(&[0u8; 18][..]);
+                c2.decode(&context, &mut s2, &mut lenchunk).map_err(|e| e.to_string())?;
+                verif::script_opens(Some(opens_of(spec)));
+                let mut input = src.clone();
+                let _ = c2.decode(&context, &mut s2, &mut input);
             }
-            let size = (plen - 16) as u16;
-            verif::script_opens(Some(vec![Some(size.to_be_bytes().to_vec())]));
-            let mut lenchunk = BytesMut::from(&[0u8; 18][..]);
-            codec.decode(&context, &mut session, &mut lenchunk).map_err(|e| e.to_string())?;
+            return Ok(());
         }
     }
     if users && mode_is_server(cfg) && src.len() >= N + 16 {
